@@ -1,5 +1,6 @@
 (* C05 — "Stamp moves only the branches that share lineage with the target". *)
 From AV Require Export Model.Stamp.
+From AV Require Import Spec.C03.       (* ndeps_okb: the observed r_ndeps agree with the model of _normalize_depends_on *)
 
 Definition c05_in := (graph * bool * target * list N)%type.       (* history, --purge, target, rows before *)
 Definition c05_out := res (list step * list obs).                 (* steps of _stamp_revs, what each did; or the exception of _stamp_revs *)
@@ -117,6 +118,7 @@ Definition model_C05 (i:c05_in) : c05_out :=
   let '(G, purge, t, H) := i in
   match stamp G purge t H with Ok (steps, os, _) => Ok (steps, os) | Err e => Err e end.
 Definition corr_C05 (i:c05_in) (o:c05_out) : bool :=
+  (let '(G, _, _, _) := i in ndeps_okb G) &&
   match model_C05 i, o with
   | Ok (s, os), Ok (s', os') => list_eqb step_eqb s s' && list_eqb obs_eqb5 os os'
   | Err e, Err e' => herr_eqb5 e e'
